@@ -175,7 +175,7 @@ impl SubCheck for RoundTrip {
 		"roundtrip"
 	}
 	fn cases(&self, tier: Tier) -> u32 {
-		tier.pick(40_000, 1_500_000)
+		tier.pick(400_000, 8_000_000)
 	}
 	fn strategy(&self, tier: Tier) -> BoxedStrategy<RtCase> {
 		let d = tier.pick(4, 7);
@@ -572,7 +572,7 @@ impl SubCheck for ParserStrictness {
 		"response-parser"
 	}
 	fn cases(&self, tier: Tier) -> u32 {
-		tier.pick(60_000, 2_000_000)
+		tier.pick(600_000, 12_000_000)
 	}
 	fn strategy(&self, tier: Tier) -> BoxedStrategy<ParserCase> {
 		let d = tier.pick(3, 5);
